@@ -707,9 +707,13 @@ impl<'a> UdpNhcRepr {
             return Err(Error);
         }
 
-        if checksum_caps.udp.rx() {
+        if checksum_caps.udp.rx()
+            && let Some(checksum) = packet.checksum()
+        {
+            // The sum over everything including the transmitted checksum must be all
+            // ones; this also accepts 0xffff for a computed checksum of zero.
             let payload_len = packet.payload().len();
-            let chk_sum = !checksum::combine(&[
+            let sum = checksum::combine(&[
                 checksum::pseudo_header_v6(
                     src_addr,
                     dst_addr,
@@ -720,11 +724,10 @@ impl<'a> UdpNhcRepr {
                 packet.dst_port(),
                 payload_len as u16 + 8,
                 checksum::data(packet.payload()),
+                checksum,
             ]);
 
-            if let Some(checksum) = packet.checksum()
-                && chk_sum != checksum
-            {
+            if sum != !0 {
                 return Err(Error);
             }
         }
